@@ -82,6 +82,12 @@ def configs(tier, seed):
         for _ in range(120):
             aw, al = rnd.choice(geos)
             out.append({"aw": aw, "al": al, "seq": [rnd.choice(CORE) for _ in range(3)]})
+        # out-of-order explicit placements followed by a third item (the most recently inserted range is not the
+        # highest one; the cursor has been rewound)
+        for s3 in (["res@", "res@", "res"], ["res@", "res@", "res@"], ["res@", "res@", "win"], ["win@", "res@", "res"],
+                   ["res@", "win@", "res/1"], ["res@", "res@", "dense4"], ["win@", "win@", "res"]):
+            for aw, al in ((4, 0), (5, 1)):
+                out.append({"aw": aw, "al": al, "seq": s3})
         for aw, al in ((12, 0), (16, 3), (33, 1), (64, 0)):       # the arithmetic is width-agnostic; wide maps cost nothing
             for _ in range(6):
                 out.append({"aw": aw, "al": al, "seq": [rnd.choice(names) for _ in range(2)]})
@@ -124,6 +130,8 @@ def harness_for(cfg):
                 return ("ok",) + tuple(f(m))
             except (ValueError, TypeError):
                 return ("raise",)
+            except AssertionError:
+                return ("internal-error",)
 
         def same_outcome(a, b):
             if a[0] != b[0] or len(a) != len(b):
@@ -195,7 +203,9 @@ def harness_for(cfg):
                 E.prove(mm.align_to(0) == cur_before, "failed call moved the placement cursor")
                 continue
             addr = E.int(f"a{n}", 0, top + 2) if kd["addr"] else None
-            nm = (f"n{n % 2}",)            # names are reused: a refused call must not keep its name reserved
+            # the name of a REFUSED call is used again by the next one (a refused call must not keep its name
+            # reserved); accepted items get distinct names
+            nm = (f"n{len(items)}",)
             if kd["k"] == "res":
                 size = E.int(f"z{n}", 0, top + 2)
 
@@ -221,6 +231,10 @@ def harness_for(cfg):
                     E.prove(ratio == exp_ratio, "window ratio")
                     need = (1 << kd["waw"]) // exp_ratio
                     eff = max(al, kd["waw"]) if exp_ratio == 1 else None
+            except AssertionError:
+                E.observe("internal-error")
+                E.prove(False, "an add call fails with an internal assertion instead of being accepted or refused")
+                return
             except (ValueError, TypeError):
                 E.observe("raise")
                 same(before, snapshot(), "query results")
